@@ -2,13 +2,14 @@
 CONSTANTS K = 2
           Editable = {"M"}
           Addable = {}
-          OptNames = {"O1","O2","O3","O4"}
+          OptNames = {"O1","O2","O3","O4","O5","O6"}
           Modes = {"cache","codegen"}
           Versions = {1,2}
           Holds = {TRUE,FALSE}
           MaxClock = 1000000
           LibFoldersInKey = TRUE
           Beyond = {}
+          OptionValuesCompared = TRUE
           FreshLibHandles = TRUE
 INIT Init
 NEXT Next
@@ -16,6 +17,7 @@ VIEW View
 INVARIANT TypeOK
 INVARIANT ClockInv
 INVARIANT ResultIsFresh
+PROPERTY ResultIsFreshAct
 INVARIANT HitImpliesFresh
 PROPERTY EditInvalidates
 PROPERTY TransferLeavesValidCache
